@@ -438,7 +438,9 @@ def _derived_from_rest_after_comma(o, r2, rest):
     _cs = canon_slice
     canon = lambda x: _norm_slice(_cs(x))
     if canon(r2) == after:
-        return True
+        # nothing skipped: right only where the path has established that no SP / HTAB is ahead (the exit condition of a
+        # skip loop, an empty rest, a counted whitespace prefix of length 0)
+        return _no_ows_ahead(o, after[0])
     base, path = canon_slice(r2)
     if isinstance(base, tuple) and base[0] == "deref" and isinstance(base[1], tuple) and base[1][0] == "loopvar" and path == ():
         lv = base[1]
@@ -446,6 +448,30 @@ def _derived_from_rest_after_comma(o, r2, rest):
         # (a loop in an expanded helper - `skip_delimiter(rest)` - carries its call chain in the loop variable)
         entry = lev.get((lv[1], lv[2], lv[3]) + ((lv[5],) if len(lv) > 5 else ()))
         return entry is not None and canon(entry) == after
+    return False
+
+
+def _no_ows_ahead(o, seq):
+    def same_seq(x):
+        return x == seq or _norm_slice(canon_slice(x)) == (seq, ()) or (isinstance(x, tuple) and x and x[0] in ("deref", "&", "ref") and
+                                                                      len(x) > 1 and isinstance(x[1], tuple) and same_seq(x[1]))
+    for t, v in o.cons.known.items():
+        if not isinstance(t, tuple) or not t:
+            continue
+        if t[0] == "len" and same_seq(t[1]) and v == 0:
+            return True
+        if t[0] == "proj" and same_seq(t[1]) and t[2] == ("cidx", 0, False, 0) and isinstance(v, int) and v not in (32, 9):
+            return True
+        if t[0] == "prefix_len" and same_seq(t[1]) and v == 0:
+            return True
+    for t, vals in o.cons.notin.items():
+        if isinstance(t, tuple) and t and t[0] == "proj" and same_seq(t[1]) and t[2] == ("cidx", 0, False, 0) and {32, 9} <= set(vals):
+            return True
+    z = cons_zone(o)
+    for rel in o.cons.rel:
+        for t in rel[1:]:
+            if isinstance(t, tuple) and t and t[0] == "prefix_len" and same_seq(t[1]) and z.entails("Eq", t, const(0)):
+                return True
     return False
 
 
